@@ -27,6 +27,8 @@
 (*   put_*_subtree_roots  no effect on the queue; the end height becomes known                      *)
 (*   Prune            prune_scan_queue_below: demote / delete what is queued below a height          *)
 (*   QueueRescans     the given ranges at the given priority, forced                                 *)
+(*   RewindTo         rewind_to_chain_state: cut at the height the wallet settles on, then Historic  *)
+(*                    (forced) from the target to the old tip                                        *)
 (*                                                                                                  *)
 (* The rustdoc leaves open which shard end heights the wallet still knows after a rewind; users of  *)
 (* this module treat that table as an input (see Trace_WalletQueue).  Everything else is exact.     *)
@@ -75,14 +77,19 @@ SeqMax(ins, i, acc) == IF i > Len(ins) THEN acc ELSE SeqMax(ins, i + 1, MaxOf(ac
 \* replace_queue_entries: the stored entries that overlap or touch the hull of the insertions, then the insertions,
 \* go through the dominance rule.  For a queue that is an interval this is the fold over the whole queue when the
 \* insertions overlap or touch it; insertions apart from it leave a gap (the queue stops being an interval).
+\* (empty ranges take part in the fold -- they widen the hull that is gap-filled -- but are not stored: the hull of the
+\* result is that of the stored rows, and a queue without rows is the empty queue)
+Norm(Q) == LET rem == { x \in Hts : Q.f[x] # None }
+           IN  IF rem = {} THEN EmptyQueue
+               ELSE [f |-> Q.f, lo |-> CHOOSE x \in rem : \A y \in rem : x <= y, hi |-> (CHOOSE x \in rem : \A y \in rem : x >= y) + 1]
 Replace(Q, ins) ==
     IF ins = << >> THEN Q
     ELSE LET qs == SeqMin(ins, 1, HHi + 1)
              qe == SeqMax(ins, 1, HLo - 1)
              touched == Q.lo < Q.hi /\ Q.lo <= qe /\ qs <= Q.hi
-         IN  IF touched THEN FoldIns(Q.f, Q.lo, Q.hi, ins, 1)
+         IN  IF touched THEN Norm(FoldIns(Q.f, Q.lo, Q.hi, ins, 1))
              ELSE LET R == FoldIns(Q.f, HHi + 1, HLo - 1, ins, 1)
-                  IN  [f |-> R.f, lo |-> MinOf(Q.lo, R.lo), hi |-> MaxOf(Q.hi, R.hi)]
+                  IN  Norm([f |-> R.f, lo |-> MinOf(Q.lo, R.lo), hi |-> MaxOf(Q.hi, R.hi)])
 
 \* trim_scan_queue_to: no range extends above h
 Cut(Q, h) == IF h + 1 <= Q.lo THEN EmptyQueue
@@ -192,6 +199,14 @@ PruneCount(Q, h, retain) ==
 \* queue_rescans(ranges, priority): the ranges are inserted with that priority, FORCED (Scanned is not sticky)
 RescanInsertions(ranges, p) == [i \in DOMAIN ranges |-> Ins(ranges[i][1], ranges[i][2], p, TRUE)]
 QueueRescans(Q, ranges, p) == Replace(Q, RescanInsertions(ranges, p))
+
+\* rewind_to_chain_state(target).  When the target lies below the highest scanned block the wallet is first truncated to a
+\* height th >= target it can rewind to (never below the pruning floor; one of its checkpoints) and the queue is cut above
+\* th; then everything above the target, up to the tip the queue knew BEFORE the cut, is queued again as Historic, FORCED:
+\* the blocks between the target and th stay in the wallet but are scanned again (only ChainTip, OpenAdjacent, FoundNote
+\* and Verify survive there).  th = NoH: nothing was truncated.
+RewindInsertions(target, hi) == IF target + 1 < hi THEN << Ins(target + 1, hi, Historic, TRUE) >> ELSE << >>
+RewindTo(Q, target, th) == Replace(IF th = NoH THEN Q ELSE Cut(Q, th), RewindInsertions(target, Q.hi))
 
 \* put_*_subtree_roots(index, end height)
 PutRoot(ends, P, i, h) == [ends EXCEPT ![P] = { r \in ends[P] : r[1] # i } \cup { << i, h >> }]
